@@ -189,3 +189,15 @@ func keptWriterPersists(seg segment.Segment, good []byte) error {
 	}
 	return nil
 }
+
+// flushyFailOnce is failOnce with a Flush method that reports no error (an
+// unbuffered sink whose Flush / Sync has nothing left to do): a failed Write
+// stays failed whatever a later Flush says.
+type flushyFailOnce struct{ failOnce }
+
+func (w *flushyFailOnce) Flush() error { return nil }
+
+// flushyFailAfter: the same for a writer that fails forever.
+type flushyFailAfter struct{ failAfter }
+
+func (w *flushyFailAfter) Flush() error { return nil }
